@@ -19,6 +19,31 @@ sys.path.insert(0, str(Path(__file__).resolve().parent))
 import common  # noqa: E402
 
 
+def recheck_with_leanchecker(prop: str) -> int:
+    """Thorough tier: the compiled .olean files of the property's own import closure are
+    re-checked by the toolchain's independent checker; recorded in the evidence file."""
+    import subprocess
+    import time
+
+    files = common.lean_import_closure([f"Properties.{prop}"])
+    mods = [str(f.relative_to(common.LEAN_DIR))[:-5].replace("/", ".") for f in files]
+    if not mods:
+        return 0
+    t0 = time.time()
+    r = subprocess.run(["lake", "env", "leanchecker", *mods], cwd=common.LEAN_DIR,
+                       stdout=subprocess.PIPE, stderr=subprocess.STDOUT, text=True, timeout=3600)
+    ok = r.returncode == 0
+    ev = common.EVIDENCE / f"{prop}.json"
+    if ev.exists():
+        d = json.loads(ev.read_text())
+        d.setdefault("coverage", {})["leanchecker"] = dict(modules=mods, ok=ok, wall_s=round(time.time() - t0, 1))
+        ev.write_text(json.dumps(d, indent=1, default=str))
+    if not ok:
+        raise common.InfraError("leanchecker rejected compiled modules: " + r.stdout[-1500:])
+    print(f"LEANCHECKER ok modules={len(mods)} wall={time.time() - t0:.1f}s")
+    return 0
+
+
 def main() -> int:
     ap = argparse.ArgumentParser()
     ap.add_argument("prop")
@@ -33,7 +58,10 @@ def main() -> int:
         mod = props.load(args.prop)
         if args.replay:
             return mod.replay(args.replay)
-        return mod.check(args.tier, args.seed)
+        rc = mod.check(args.tier, args.seed)
+        if rc == 0 and args.tier == "thorough":
+            rc = recheck_with_leanchecker(args.prop)
+        return rc
     except common.InfraError as e:
         print(f"INFRA-ERROR property={args.prop}: {e}", file=sys.stderr)
         return 2
